@@ -276,6 +276,9 @@ def shared_rules(prog: Program, rep: Report) -> None:
         from . import c04
 
         c04.alignment(prog, sub)
+        # continuous release: the forward fill runs along the tick axis, i.e. in simulation order; a fill by value
+        # (the latest file time <= tick) is the same thing forward and the opposite entry in a reversed run
+        c04.continuous(prog, sub)
     except ImportError:
         pass
     for o in sub.obligations:
@@ -298,7 +301,7 @@ def run(prog: Program, rep: Report, tier: str) -> None:
     rep.trusted_base = ["CPython ast", "Fraction arithmetic", "sa/nf.py, sa/interp.py"]
     rep.rule("R10.1", "TimeKeeper: reversed evaluation = T(forward evaluation) for update, step2time, time2step, step2isotime, step2nctime, nctime; direction guard", 8)
     rep.rule("R10.2", "release window filters / tick spacing, output period and velocity signs are mirrored; no unmirrored comparison of instants", 12)
-    rep.rule("R10.3", "direction-independent pieces reused from C03/C04: sorted steps, file selection by identity, order-compatible release sequences", 5)
+    rep.rule("R10.3", "direction-independent pieces reused from C03/C04: sorted steps, file selection by identity, order-compatible release sequences, continuous-release fill along the tick axis", 8)
     timekeeper_mirror(prog, rep)
     release_mirror(prog, rep)
     output_mirror(prog, rep)
